@@ -11,8 +11,11 @@ MANIFEST = dict(
     text="PROVED (Coq, unbounded): both compressed layouts address each unordered pair exactly once, symmetrically, with zero diagonal; "
          "the bitfield encoding and the coefficient packing round-trip without overflow within the dispatcher's bit budget; the "
          "combinatorial number system is a bijection between k-subsets of [n] and [0,C(n,k)) and the binary search get_max returns the "
-         "largest admissible vertex; the table filled by Pascal's rule holds the binomial coefficients.  The barcode oracle is the "
-         "certified pairing of Reduce.v/ReduceExec.v applied to the Rips flag filtration built in Gallina.  COMPARED, NOT PROVED: the "
+         "largest admissible vertex; the table filled by Pascal's rule holds the binomial coefficients and the constructor's wrap-around "
+         "test throws exactly when the largest entry exceeds the word; the clamped dim_max fits dimension_t.  The barcode oracle is the "
+         "certified pairing of Reduce.v/ReduceExec.v applied to the Rips flag filtration built in Gallina; proved about it: its complex is "
+         "exactly the flag complex of the threshold graph up to dimension dim_max+1 with diameters as values, faces precede cofaces "
+         "(run-time checked), the pairing is canonical for every prime.  COMPARED, NOT PROVED: the "
          "Ripser reduction engine (clearing, apparent/emergent pairs, coboundary enumerators, union-find) - its intervals are compared "
          "with the oracle as multisets on every input (all input forms, thresholds, dimensions, moduli, the three encodings observed "
          "through a recording hook), and with a second independent route (Rips_complex + Simplex_tree + Persistent_cohomology).",
